@@ -32,7 +32,13 @@ def run_check(prop: str, tier: str, root: str, *, write_evidence: bool = True, o
     error = None
     try:
         mod = rules_module(prop)
-        explanation = mod.EXPLANATION
+        explanation = mod.EXPLANATION + (
+            " In addition the generic rule R0 is applied to every function of the files the property is anchored in (and every function the rules above consulted):"
+            " names read at run time are bound (compiler symbol tables; imports under TYPE_CHECKING do not count), attributes exist on self and on receivers of an inferred package class,"
+            " resolved internal calls fit their signature, no named parameter is ignored, no local is computed and dropped, optional members are tested before they are dereferenced,"
+            " values do not cross between sibling roles (ra/dec, left/right, weights/redshifts, min/max, 1/2 …) and no expression is duplicated where its sibling was meant,"
+            " data columns and conventions (weights, redshifts, closed, degrees, cosmology, unit) are handed on at internal calls, no integer-typed buffer is filled with computed values."
+        )
         prog = load_program(root)
         res.prog = prog
         res.assume(*getattr(mod, "ASSUMPTIONS", []))
